@@ -292,7 +292,7 @@ def silent_lits(fn, prog, node):
     return out
 
 
-def depends_on(fn, e, pred, depth=3):
+def depends_on(fn, e, pred, depth=3, prog=None):
     """expression e - looking through locals of fn to the expressions assigned to them, `depth`
     levels - contains a node satisfying pred.  Used wherever a rule asks "does this argument come
     from X": hoisting a sub-expression into a local must not change the verdict."""
@@ -321,6 +321,31 @@ def depends_on(fn, e, pred, depth=3):
                 if T.path(n.ev["lhs"]) == v and T.strip(n.ev["lhs"]).get("k") == "v" and isinstance(n.ev.get("rhs"), dict):
                     if rec(n.ev["rhs"], d - 1):
                         return True
+            # a value filled in through a pointer: `q = &v; ... *q = e` (an absorbed helper's out-parameter)
+            ptrs = {T.path(n.ev["lhs"]) for n in fn.events("S") if isinstance(n.ev.get("rhs"), dict) and
+                    T.strip(n.ev["rhs"]).get("k") == "u" and T.strip(n.ev["rhs"]).get("o") == "&" and
+                    T.path(T.strip(n.ev["rhs"]).get("e")) == v}
+            if ptrs:
+                for n in fn.events("S"):
+                    l = T.strip(n.ev["lhs"])
+                    if isinstance(l, dict) and l.get("k") == "u" and l.get("o") == "*" and T.path(l.get("e")) in ptrs and \
+                            isinstance(n.ev.get("rhs"), dict):
+                        if rec(n.ev["rhs"], d - 1):
+                            return True
+            # ... or by a helper that is still a function of its own: what it stores through that parameter
+            if prog is not None:
+                for c in fn.call_nodes():
+                    for ai, a in enumerate(c.ev["x"].get("a", [])):
+                        a0 = T.strip(a)
+                        if isinstance(a0, dict) and a0.get("k") == "u" and a0.get("o") == "&" and T.path(a0.get("e")) == v:
+                            for g in prog.lookup(c.ev["x"].get("fn"), fn) if c.ev["x"].get("fn") else []:
+                                if ai < len(g.params):
+                                    for n in g.events("S"):
+                                        l = T.strip(n.ev["lhs"])
+                                        if isinstance(l, dict) and l.get("k") == "u" and l.get("o") == "*" and \
+                                                T.path(l.get("e")) == g.params[ai] and isinstance(n.ev.get("rhs"), dict):
+                                            if depends_on(g, n.ev["rhs"], pred, d - 1, prog):
+                                                return True
         return False
     return rec(e, depth)
 
